@@ -16,14 +16,16 @@
     fn any_collection() -> (UiTokenCollection, usize, [usize; 4]) {
         let n: usize = kani::any();
         kani::assume(n <= 3);
-        let mut map: Vec<usize> = Vec::with_capacity(16);
-        let mut bounds = [0usize; 4];
         let l0: usize = kani::any(); let l1: usize = kani::any(); let l2: usize = kani::any();
         kani::assume(l0 >= 1 && l0 <= 3 && l1 >= 1 && l1 <= 3 && l2 >= 1 && l2 <= 3);
-        if n > 0 { map.push(0); if l0 > 1 { map.push(0); } if l0 > 2 { map.push(0); } bounds[1] = l0; }
-        if n > 1 { map.push(1); if l1 > 1 { map.push(1); } if l1 > 2 { map.push(1); } bounds[2] = bounds[1] + l1; }
-        if n > 2 { map.push(2); if l2 > 1 { map.push(2); } if l2 > 2 { map.push(2); } bounds[3] = bounds[2] + l2; }
-        (UiTokenCollection { tokens: Vec::new(), char_sizes: map }, n, bounds)
+        let b1 = if n > 0 { l0 } else { 0 };
+        let b2 = if n > 1 { b1 + l1 } else { b1 };
+        let b3 = if n > 2 { b2 + l2 } else { b2 };
+        // entry for byte x: the index of the character that contains it
+        let e = |x: usize| -> usize { (x >= b1) as usize + (x >= b2) as usize };
+        let mut map: Vec<usize> = alloc::vec![e(0), e(1), e(2), e(3), e(4), e(5), e(6), e(7), e(8)];
+        map.truncate(b3);
+        (UiTokenCollection { tokens: Vec::new(), char_sizes: map }, n, [0, b1, b2, b3])
     }
 
     // generate_char_map on concrete lines mixing 1-, 2- and 3-byte characters
@@ -68,29 +70,39 @@
         ok
     }
 
-    // C17: 0 <= start < end <= length of the line in characters, tokens never overlap, and a token
-    // covers exactly the characters of its match; a match that overlaps nothing is never dropped
+    // C17: a token covers exactly the characters of its match (first token of a line)
     #[kani::proof]
-    fn tokens_are_wellformed_char_spans() {
+    fn first_token_covers_its_characters() {
         let (mut c, n, bounds) = any_collection();
-        // two matches, each [char a, char b) with a < b, given as byte spans
+        c.tokens = Vec::with_capacity(4);
         let a1: usize = kani::any(); let b1: usize = kani::any();
-        let a2: usize = kani::any(); let b2: usize = kani::any();
-        kani::assume(a1 < b1 && b1 <= n && a2 < b2 && b2 <= n);
+        kani::assume(a1 < b1 && b1 <= n);
         c.verif_add(Some(Span { s: bounds[a1], e: bounds[b1] }), UiTokenType::Number);
         assert!(c.tokens.len() == 1, "OBL:first_match_is_recorded");
         assert!(c.tokens[0].start == a1 && c.tokens[0].end == b1, "OBL:token_covers_exactly_its_characters");
-        c.verif_add(Some(Span { s: bounds[a2], e: bounds[b2] }), UiTokenType::Operator);
+        kani::cover!(b1 == n && bounds[n] > n, "COVER:token_ending_at_the_end_of_a_multibyte_line");
+    }
+
+    // C17: 0 <= start < end <= length of the line in characters, tokens never overlap; a match that
+    // overlaps nothing is never dropped, an overlapping / empty / absent one adds nothing.
+    // Inductive step from an arbitrary well-formed one-token collection.
+    #[kani::proof]
+    fn tokens_are_wellformed_char_spans() {
+        let (mut c, n, bounds) = any_collection();
+        let a1: usize = kani::any(); let b1: usize = kani::any();
+        let a2: usize = kani::any(); let b2: usize = kani::any();
+        kani::assume(a1 < b1 && b1 <= n && a2 <= b2 && b2 <= n);
+        c.tokens = Vec::with_capacity(4);
+        c.tokens.push(UiToken { start: a1, end: b1, ui_type: UiTokenType::Number });
+        let absent: bool = kani::any();
+        c.verif_add(if absent { None } else { Some(Span { s: bounds[a2], e: bounds[b2] }) }, UiTokenType::Operator);
         let disjoint = b1 <= a2 || b2 <= a1;
-        kani::cover!(disjoint && bounds[a2] != a2, "COVER:second_match_after_a_multibyte_character");
-        if disjoint {
+        kani::cover!(!absent && disjoint && a2 < b2 && bounds[a2] != a2, "COVER:second_match_after_a_multibyte_character");
+        if !absent && a2 < b2 && disjoint {
             assert!(c.tokens.len() == 2, "OBL:non_overlapping_match_is_recorded");
             assert!(c.tokens[1].start == a2 && c.tokens[1].end == b2, "OBL:second_token_covers_exactly_its_characters");
         } else {
-            assert!(c.tokens.len() == 1, "OBL:overlapping_match_is_dropped");
+            assert!(c.tokens.len() == 1, "OBL:overlapping_empty_or_absent_match_adds_nothing");
         }
         assert!(well_formed(&c, n), "OBL:collection_stays_well_formed");
-        c.verif_add(None, UiTokenType::Text);
-        c.verif_add(Some(Span { s: bounds[a1], e: bounds[a1] }), UiTokenType::Text);
-        assert!(c.tokens.len() <= 2 && well_formed(&c, n), "OBL:empty_or_absent_match_adds_nothing");
     }
